@@ -28,6 +28,15 @@ CHECKS = {
                      "unchanged checksum; every dependent runs in the same command after a changed one) and contents must equal the from-scratch evaluation. "
                      "The run fails as vacuous unless all four quadrants (changed/unchanged x in-band/out-of-band) were exercised.",
                 note="Trusted: reference model; flat worlds; -j1."),
+    "C04": dict(engine="E3 (observe mode) + behaviour matrix", category="fault_enumeration", design_ref="DESIGN.md §4 C04",
+                technique="exhaustive enumeration of script behaviours x sizes x prior states, target observed at every state-changing libc call boundary of every redo process",
+                text="Every combination of 11 script behaviours (stdout, $3, nothing, both, write $1, write $1+stdout, create-then-delete $3, output then exit 5, "
+                     "partial output then SIGKILL/SIGTERM) x output sizes {1, 4096, 70000} x prior target state {absent, previously generated} is built under an "
+                     "LD_PRELOAD shim that stops every redo process before each state-changing libc call; at every such instant the target is absent-as-before, the "
+                     "complete old bytes or the complete new bytes; final bytes, exit status (206/207/script's own), no *.redo.tmp left, and redo's only mutation of "
+                     "the target path is one rename(tmp->target) after status 0 or one unlink in the no-output case.",
+                note="Atomicity is judged at libc-call granularity of redo processes (rename(2) itself is atomic by contract). The shim's call coverage was cross-checked "
+                     "against strace -f (rv/e3.py self-test). Stores through SQLite's mmap'ed wal-index cannot be intercepted and are not in the property's list."),
     "C05": dict(engine="E1 (+E2 for -j2, see C09)", category="model_checking", design_ref="DESIGN.md §4 C05",
                 technique="exhaustive enumeration of command lines / dependency lists x fail points x -k as multi-run histories on the real binary, reference-simulation oracle",
                 text="World {f fails iff flag, g->f, h independent, i->h}. Every ordered selection of <=3 of {f,g,h,i} as the argument list of redo-ifchange, "
